@@ -18,6 +18,19 @@ for dp, dns, fns in os.walk(os.path.join(root, "nrel", "hive")):
             for c in ast.walk(tree):
                 if isinstance(c, ast.ClassDef):
                     out.append([rel, "class:" + c.name, None])
+            # module-level names bound by assignment (constants) and the module's import table
+            for st_ in tree.body:
+                tg = st_.targets if isinstance(st_, ast.Assign) else ([st_.target] if isinstance(st_, ast.AnnAssign) else [])
+                for t_ in tg:
+                    if isinstance(t_, ast.Name):
+                        out.append([rel, "const:" + t_.id, None])
+            for st_ in ast.walk(tree):
+                if isinstance(st_, ast.Import):
+                    for a_ in st_.names:
+                        out.append([rel, "import:" + (a_.asname or a_.name.split(".")[0]), [a_.name if a_.asname else a_.name.split(".")[0]]])
+                elif isinstance(st_, ast.ImportFrom) and st_.module and not st_.level:
+                    for a_ in st_.names:
+                        out.append([rel, "import:" + (a_.asname or a_.name), [st_.module + "." + a_.name]])
 json.dump(sorted(out), open(os.path.join(os.path.dirname(os.path.dirname(os.path.abspath(__file__))), "hivecheck", "baseline_symbols.json"), "w"))
 print(len(out), "symbols")
 
